@@ -90,7 +90,7 @@ def oracle_arm(v, shared, shared_args, default_placeholder, wraps):
     return "            %s => { write!(want, \"%s\"%s%s).unwrap(); }" % (v.pat(), shared, (", " + shared_args) if shared_args else "", extra)
 
 
-def enum_shape(name, trait, attr, default_placeholder, variants, shared, shared_args, wraps, rename_all=None, quick=True):
+def enum_shape(name, trait, attr, default_placeholder, variants, shared, shared_args, wraps, rename_all=None, quick=True, unwind=10):
     top = '#[%s("%s"%s)]\n' % (attr, shared, (", " + shared_args) if shared_args else "")
     if rename_all:
         top += '#[%s(rename_all = "%s")]\n' % (attr, rename_all)
@@ -99,7 +99,7 @@ def enum_shape(name, trait, attr, default_placeholder, variants, shared, shared_
     ctors[-1] = "_ => " + variants[-1].ctor()
     arms = [oracle_arm(v, shared, shared_args, default_placeholder, wraps) for v in variants]
     hsrc = """    #[kani::proof]
-    #[kani::unwind(10)]
+    #[kani::unwind(%(unw)d)]
     fn enum_level_format_rule() {
         let s = match kani::any::<u8>() %% %(n)d { %(ctors)s };
         trace_reset();
@@ -113,12 +113,12 @@ def enum_shape(name, trait, attr, default_placeholder, variants, shared, shared_
         assert!(got.same(&want), "output differs from the documented enum-level format rule");
         assert!(tg == tw, "fields were formatted differently than the documented rule prescribes");
 %(covers)s    }
-""" % dict(n=len(variants), ctors=", ".join(ctors), arms="\n".join(arms), T=trait,
+""" % dict(unw=unwind, n=len(variants), ctors=", ".join(ctors), arms="\n".join(arms), T=trait,
            covers="".join("        kani::cover!(matches!(s, %s), \"reach %s\");\n" % (
                ("E::%s" % v.name) if v.kind == "unit" else ("E::%s { .. }" % v.name if v.kind == "named" else "E::%s(..)" % v.name), v.name)
                for v in variants))
     return Shape("c07_%s_%s" % (attr, name), module(decl, hsrc),
-                 [Harness("enum_level_format_rule", "the variant and probe ids symbolic", covers=len(variants), unwind=10,
+                 [Harness("enum_level_format_rule", "the variant and probe ids symbolic", covers=len(variants), unwind=unwind,
                           asserts="per variant: bytes and probe trace equal those of the documented rule (%s)" % (
                               "shared format wraps `_variant`" if wraps else "shared format is only a default"))],
                  decl.replace("\n", " "),
@@ -143,6 +143,11 @@ def shapes(tier):
     out.append(enum_shape("wrap_rename_all", "Display", "display", "{}",
                           [V("FooBar", "unit", printed_name="foo_bar"), V("Single", "tuple", 1), V("BazQux", "unit", own="own")],
                           "[{_variant}]", "", True, rename_all="snake_case"))
+    # a variant's own attribute with a Pointer placeholder on a field named in it: `_variant` still stands for what the variant prints by itself
+    # (unwind 24: should the field's *address* get printed, the harness must still return a verdict)
+    ptrv = [V("P", "tuple", 1, own="at {_0:p}"), V("N", "named", 2, own="{b:p}/{a}"), V("Single", "tuple", 1)]
+    out.append(enum_shape("wrap_own_pointer", "Display", "display", "{}", ptrv, "<{_variant}>", "", True, unwind=24))
+    out.append(enum_shape("default_own_pointer", "Display", "display", "{}", ptrv, "X", "", False, unwind=24, quick=False))
     # not mentioning `_variant`: a default only
     out.append(enum_shape("default_text_a", "Display", "display", "{}", mixed_a, "X", "", False))
     out.append(enum_shape("default_text_b", "Display", "display", "{}", mixed_b, "X", "", False))
